@@ -1,13 +1,19 @@
 package props
 
 import (
+	"bytes"
 	"context"
 	"errors"
 	"fmt"
 	"github.com/IBM/fluent-forward-go/fluent/client"
+	"github.com/IBM/fluent-forward-go/fluent/protocol"
+	"io"
 	"math/rand"
 	"net"
+	"os"
+	"path/filepath"
 	"strings"
+	"sync"
 	"sync/atomic"
 	"time"
 	"verif/harness/fakes"
@@ -123,6 +129,7 @@ func C14(c *core.Ctx) {
 		raceStress(c, c.N(150, 3000))
 		c14SlowDial(c)
 		c14CapableConns(c)
+		c14RealSockets(c)
 	}
 }
 
@@ -285,5 +292,86 @@ func c14CapableConns(c *core.Ctx) {
 			c.Eval()
 			c.Hist("connections offering optional methods: " + hist)
 		}
+	}
+}
+
+// c14RealSockets: the library's own ConnFactory over loopback TCP and a unix socket (no fakes): Connect dials once,
+// a Send arrives as the message's encoding, Connect on the active session fails without a second dial, Disconnect
+// closes the connection (the peer reads EOF), Reconnect replaces it with exactly one new connection.
+func c14RealSockets(c *core.Ctx) {
+	dir, err := os.MkdirTemp("", "c14sock")
+	if err != nil {
+		c.Hist("real sockets unavailable: " + err.Error())
+		return
+	}
+	defer os.RemoveAll(dir)
+	for _, network := range []string{"tcp", "unix", ""} {
+		addr := "127.0.0.1:0"
+		lnet := network
+		if network == "unix" {
+			addr = filepath.Join(dir, "s.sock")
+		}
+		if network == "" {
+			lnet = "tcp" // the factory's default network
+		}
+		ln, err := net.Listen(lnet, addr)
+		if err != nil {
+			c.Hist("real sockets unavailable: " + err.Error())
+			continue
+		}
+		var mu sync.Mutex
+		accepted, eofs := 0, 0
+		var got [][]byte
+		go func() {
+			for {
+				cn, err := ln.Accept()
+				if err != nil {
+					return
+				}
+				mu.Lock()
+				accepted++
+				mu.Unlock()
+				go func() {
+					b, _ := io.ReadAll(cn)
+					mu.Lock()
+					eofs++
+					got = append(got, b)
+					mu.Unlock()
+					_ = cn.Close()
+				}()
+			}
+		}()
+		cl := client.New(client.ConnectionOptions{Factory: &client.ConnFactory{Network: network, Address: ln.Addr().String(), Timeout: 2 * time.Second}})
+		m := &protocol.Message{Tag: "real", Timestamp: 7, Record: map[string]interface{}{"k": "v"}}
+		enc, _ := m.MarshalMsg(nil)
+		replay := map[string]interface{}{"network": network, "history": "Connect; Send; Connect; Reconnect; Send; Disconnect"}
+		e1 := cl.Connect()
+		e2 := cl.Send(m)
+		e3 := cl.Connect()
+		e4 := cl.Reconnect()
+		e5 := cl.Send(m)
+		e6 := cl.Disconnect()
+		ok := false
+		for i := 0; i < 200 && !ok; i++ { // the peer's side of the closes arrives asynchronously
+			mu.Lock()
+			ok = eofs == 2
+			mu.Unlock()
+			if !ok {
+				time.Sleep(5 * time.Millisecond)
+			}
+		}
+		_ = ln.Close()
+		c.Eval()
+		c.Hist("library's own ConnFactory over a real " + lnet + " socket")
+		mu.Lock()
+		if e1 != nil || e2 != nil || e3 == nil || e4 != nil || e5 != nil || e6 != nil {
+			c.Violation("judge-go", "c14-real-sockets", fmt.Sprintf("Connect %v; Send %v; Connect (active session) %v; Reconnect %v; Send %v; Disconnect %v", e1, e2, e3, e4, e5, e6), replay)
+		}
+		if accepted != 2 || eofs != 2 {
+			c.Violation("judge-go", "c14-real-sockets", fmt.Sprintf("the peer accepted %d connections and saw %d of them closed (2 and 2 expected: Connect, Reconnect; the refused Connect does not dial)", accepted, eofs), replay)
+		} else if !bytes.Equal(got[0], enc) || !bytes.Equal(got[1], enc) {
+			c.Violation("judge-go", "c14-real-sockets", "the bytes the peer received on a connection are not the encoding of the one message sent on it", replay)
+		}
+		mu.Unlock()
 	}
 }
